@@ -304,9 +304,11 @@ def _cold(ctx, tier, rec, rng):
                 # interpreter flags a deployment may use: assertions off (-O), docstrings stripped as well (-OO)
                 flags = ([], ["-O"], ["-OO"])[(j + ctx.shard) % 3]
                 ctx.hit("replay_cold_start_flags_" + ("".join(flags) or "default"))
-                strict = ["strict"] if (j + ctx.shard // 3) % 2 == 1 else []
-                if strict:
+                strict = ([], ["strict"], ["ambient"])[(j + ctx.shard // 3) % 3]
+                if strict == ["strict"]:
                     ctx.hit("replay_cold_start_strict_numeric_policy")
+                elif strict:
+                    ctx.hit("replay_cold_start_print_options_set_before_import")
                 p = subprocess.run([sys.executable] + flags + ["-m", "pmv.coldstart", path, str(ctx.shard * 31 + j * 7 + ctx.seed), "8"] + strict,
                                    capture_output=True, text=True, timeout=120, env=env, cwd=core.VERIF)
                 out = json.loads(p.stdout.strip().splitlines()[-1]) if p.stdout.strip() else None
@@ -318,7 +320,7 @@ def _cold(ctx, tier, rec, rng):
             n += 1
             for w in out[:2]:
                 ctx.violation("result-differs-in-a-fresh-interpreter:" + w["function"].split(".")[-1], monitor="replay",
-                              case=None, interpreter_flags=("".join(flags) or "default") + (" + np.seterr(all=raise) before first use" if strict else ""), **w)
+                              case=None, interpreter_flags=("".join(flags) or "default") + (" + np.seterr(all=raise) before first use" if strict == ["strict"] else " + numpy print options / decimal context set before import" if strict else ""), **w)
         ctx.hit("replay_cold_start_processes", n)
     finally:
         try:
